@@ -799,7 +799,9 @@ func syncFence(m *meta, rng *rand.Rand, round int) {
 	p3 := stepUntil(3, -100)
 	if p3 == kioshun.VerifStepDone {
 		if v, ok := c.Get(7); serr == nil && (!ok || v != 1) {
-			m.violate("C04", fmt.Sprintf("%s: SetAsync(7,1) had returned, Sync then returned nil while the worker still held the dequeued command: Get(7)=(%d,%v)", ctx, v, ok), ctx)
+			for _, p := range []string{"C04", "C01"} {
+				m.violate(p, fmt.Sprintf("%s: SetAsync(7,1) had returned, Sync then returned nil while the worker still held the dequeued command: Get(7)=(%d,%v)", ctx, v, ok), ctx)
+			}
 		}
 	}
 	stepUntil(1000, 301)
@@ -985,6 +987,9 @@ func expiryRace(m *meta, rng *rand.Rand, round int) {
 				c.Get(1)
 				c.GetWithTTL(2)
 				c.Exists(1)
+				c.Exists(2)
+				c.Exists(4)
+				c.Exists(5)
 			}
 		}()
 	}
@@ -992,6 +997,8 @@ func expiryRace(m *meta, rng *rand.Rand, round int) {
 	for i := 0; i < 300; i++ {
 		c.Set(1, 2*i, 120*time.Microsecond)
 		c.Set(2, 1000000+2*i, 90*time.Microsecond)
+		c.Set(4, 2000000+2*i, 100*time.Microsecond)
+		c.Set(5, 3000000+2*i, 100*time.Microsecond)
 		if i%16 == 0 {
 			c.Cleanup()
 		}
@@ -1028,6 +1035,11 @@ func expiryRace(m *meta, rng *rand.Rand, round int) {
 		m.violate("C10", fmt.Sprintf("%s: Stats().Expirations=%d but %d expiry notifications were delivered (%d others) after quiescence", ctx, st.Expirations, expired, other), ctx)
 	}
 	mu.Unlock()
+	if err := c.VerifCheckInvariants(); err != nil {
+		for _, p := range []string{"C11", "C10"} {
+			m.violate(p, fmt.Sprintf("%s: internal structures disagree after concurrent expiry discovery through Get/GetWithTTL/Exists: %v", ctx, err), ctx)
+		}
+	}
 	c.Set(3, 3, 0)
 	c.Delete(1)
 	c.Sync()
